@@ -928,11 +928,21 @@ fn analyse(prog: &Main) -> Option<String> {
 // ------------------------------------------------------------------------------------------------
 // C20: codec round trips on the real serde implementation
 
+fn from_str_unbounded<'a, T: serde::Deserialize<'a>>(s: &'a str) -> Result<T, serde_json::Error> {
+    let mut de = serde_json::Deserializer::from_str(s);
+    de.disable_recursion_limit();
+    let v = T::deserialize(&mut de)?;
+    de.end()?;
+    Ok(v)
+}
+
 fn codec_check(prog: &Main) -> Result<(), String> {
     // AST
     let js = serde_json::to_string(prog).map_err(|e| format!("ast to_string: {e}"))?;
     let js: &'static str = leak(js);
-    let prog2: Main = serde_json::from_str(js).map_err(|e| format!("ast from_str: {e}"))?;
+    // serde_json's default recursion limit (128) is a property of that crate's reader, not of the
+    // library's codec: deep ASTs are read with the limit disabled (the harness runs on a 1 GiB stack)
+    let prog2: Main = from_str_unbounded(js).map_err(|e| format!("ast from_str: {e}"))?;
     if &prog2 != prog {
         return Err("ast: decoded value differs".into());
     }
@@ -987,7 +997,7 @@ fn codec_check(prog: &Main) -> Result<(), String> {
     for (k, st) in stacks.iter().enumerate() {
         let t = serde_json::to_string(st).map_err(|e| format!("stack {k} to_string: {e}"))?;
         let back: SemanticStack<Ins> =
-            serde_json::from_str(&t).map_err(|e| format!("stack {k} from_str: {e}"))?;
+            from_str_unbounded(&t).map_err(|e| format!("stack {k} from_str: {e}"))?;
         if &back != st {
             return Err(format!("stack {k}: decoded value differs"));
         }
